@@ -4,6 +4,7 @@ import (
 	"fmt"
 	"os"
 	"path/filepath"
+	"runtime/debug"
 	"sort"
 	"strings"
 	"testing"
@@ -39,7 +40,11 @@ func replayOne(f string) {
 	}
 	var escaped interface{}
 	func() {
-		defer func() { escaped = recover() }()
+		defer func() {
+			if escaped = recover(); escaped != nil {
+				fmt.Printf("%s\n", debug.Stack())
+			}
+		}()
 		fn()
 	}()
 	if escaped != nil {
